@@ -23,7 +23,9 @@ let handle_q (f : string array) (o : string array) =
     | PTree e -> show_expr e ^ "|0" | PErr -> "nil|1" | PPanic s -> "PANIC " ^ string_of_chars s | POutOfFuel -> "OUTOFFUEL" in
   bump "corr.parse";
   if pm <> o.(1) then record_mismatch "parse" (input @ [("go", o.(1)); ("model", pm)]);
+  let big = tag_get tag "src" = Some "big" in
   (match pr_ with
+   | PTree e when pm = o.(1) && big -> bump "accepted"; bump "big.accepted"   (* adversarial sizes: lexer and parser only *)
    | PTree e when pm = o.(1) ->
        bump "accepted"; note_distinct "trees" (show_expr e); sample "Q" q;
        bump "corr.validate"; if o.(2) <> "ok" then record_mismatch "validate" (input @ [("go", o.(2)); ("model", "ok")]);
@@ -42,14 +44,16 @@ let handle_q (f : string array) (o : string array) =
           | _ -> ())
        end
    | _ -> ());
+  if not big then begin
   bump "corr.ToPostgres";
   let tp = m_sres (to_postgres orc orc2 cls (chars_of_string df) (chars_of_string q)) in
   if tp <> o.(8) && o.(8) <> "SKIPPED" then record_mismatch "ToPostgres" (input @ [("go", o.(8)); ("model", tp)]);
   bump "corr.ToParameterizedPostgres";
   let tpp = m_pres (to_param_postgres orc orc2 cls (chars_of_string df) (chars_of_string q)) in
-  if tpp <> o.(9) && o.(9) <> "SKIPPED" then record_mismatch "ToParameterizedPostgres" (input @ [("go", o.(9)); ("model", tpp)]);
+  if tpp <> o.(9) && o.(9) <> "SKIPPED" then record_mismatch "ToParameterizedPostgres" (input @ [("go", o.(9)); ("model", tpp)])
+  end;
   (* --- property checks on the implementation's observation --- *)
-  check_q { q; df; tag; o } input
+  check_q { q; df; tag; o; line = !current_case } input
 
 (* ---------- L lines ---------- *)
 let handle_l (f : string array) (o : string array) =
@@ -107,6 +111,7 @@ let () =
       let parts = String.split_on_char '\t' line in
       let rec split acc = function "|" :: r -> (List.rev acc, r) | x :: r -> split (x :: acc) r | [] -> (List.rev acc, []) in
       let (f, o) = split [] parts in
+      current_case := String.concat "\t" f; extra_case := "";
       let f = Array.of_list f and o = Array.of_list o in
       (try
         match f.(0) with
